@@ -51,6 +51,7 @@ fn main() {
     let code = match prop.as_str() {
         "C01" => props::c01::run(&ctx),
         "C03" => props::c03::run(&ctx),
+        "C04" => props::c04::run(&ctx),
         "C07" => props::c07::run(&ctx),
         "C08" => props::c08::run(&ctx),
         "C10" => props::c10::run(&ctx),
